@@ -12,9 +12,18 @@
     procedural <slot>                                        → nid,nid,…
     wf <slot>                                                → ok | nid:clause+clause,…   (visited nodes violating WFNode)
     reset                                                    → ok        (drops nodes, handlers and stacks)
+
+  `Node.prop_keys` cache over a class table (Model/PropKeys.lean):
+    pk.reset                                                 → ok        (drops table and cache)
+    pk.cls <id> <namehex> <pathhex> <mro ids, class first>   → ok        (id = next index)
+    pk.node <id>                                             → ok        (which id is `Node` itself)
+    pk.meta <pathhex> <key,key,…|->                          → ok        (expandable method names of a class path, in order)
+    pk.q <id>                                                → key,key,…|-   (one `cls.prop_keys()` call, cache threaded)
+    pk.pure <id>                                             → key,key,…|-   (cache-free computation)
 -/
 import Tranp.Driver.Common
 import Tranp.Model.Procedure
+import Tranp.Model.PropKeys
 
 namespace Tranp.Driver.Proc
 open Tranp Tranp.Procedure Tranp.Driver
@@ -26,6 +35,8 @@ structure DSt where
   nodes : Array PNode := #[]
   hs : Handlers String := ⟨fun _ => none, none⟩
   stacks : St String := []
+  pk : PropKeys.Table := ⟨[], 0, []⟩
+  pkCache : PropKeys.Cache := []
 
 def evVal : EvVal String → String
   | .one r => r
@@ -136,7 +147,40 @@ def step (st : DSt) : List String → DSt × String
         | vs => some (s!"{n.id}:" ++ "+".intercalate vs)
       (st, if bad.isEmpty then "ok" else ",".intercalate bad)
     | none => (st, "bad-op")
-  | ["reset"] => ({}, "ok")
+  | ["reset"] => ({ st with nodes := #[], hs := ⟨fun _ => none, none⟩, stacks := [] }, "ok")
+  | ["pk.reset"] => ({ st with pk := ⟨[], 0, []⟩, pkCache := [] }, "ok")
+  | ["pk.cls", id, name, path, mro] =>
+    match id.toNat?, Str.unhex name, Str.unhex path, (mro.splitOn ",").mapM (·.toNat?) with
+    | some i, some n, some p, some m =>
+      if i != st.pk.classes.length then (st, "bad-op")
+      else ({ st with pk := { st.pk with classes := st.pk.classes ++ [⟨n, p, m⟩] } }, "ok")
+    | _, _, _, _ => (st, "bad-op")
+  | ["pk.node", id] =>
+    match id.toNat? with
+    | some i => ({ st with pk := { st.pk with nodeId := i } }, "ok")
+    | none => (st, "bad-op")
+  | ["pk.meta", path, keys] =>
+    match Str.unhex path with
+    | some p =>
+      let ks := if keys == "-" then [] else (keys.splitOn ",").map s2l
+      ({ st with pk := { st.pk with metas := st.pk.metas ++ [(p, ks)] } }, "ok")
+    | none => (st, "bad-op")
+  | ["pk.q", id] =>
+    match id.toNat? with
+    | some i =>
+      if i < st.pk.classes.length then
+        let (cache, v) := PropKeys.query st.pk st.pkCache i
+        ({ st with pkCache := cache }, if v.isEmpty then "-" else ",".intercalate (v.map l2s))
+      else (st, "bad-op")
+    | none => (st, "bad-op")
+  | ["pk.pure", id] =>
+    match id.toNat? with
+    | some i =>
+      if i < st.pk.classes.length then
+        let v := st.pk.pure i
+        (st, if v.isEmpty then "-" else ",".intercalate (v.map l2s))
+      else (st, "bad-op")
+    | none => (st, "bad-op")
   | _ => (st, "bad-op")
 
 def run : IO Unit := runFamily step ({} : DSt)
